@@ -105,6 +105,9 @@ type Series struct {
 	// LastKind is the type of the newest in-order sample (KFloat/KHist/KFHist).
 	LastKind  uint8
 	LastStale bool
+	// LastStaleAmbig: the newest sample is a staleness marker whose stored type (float or
+	// histogram marker) is not determined; a marker re-sent at that timestamp is not judged.
+	LastStaleAmbig bool
 	// Uncertain: after a restart the implementation may or may not hold an open head
 	// chunk for the series; appends at or below LastT are then not judged.
 	Uncertain bool
@@ -190,6 +193,9 @@ func Decide(s *Series, t int64, v Val, w Window) Outcome {
 			return InOrder
 		}
 		if t == s.LastT {
+			if v.Kind == KStale && s.LastStale && s.LastStaleAmbig {
+				return Unknown
+			}
 			if v.Kind == KStale && s.LastKind != KFloat {
 				// a float staleness marker re-sent at the timestamp of a histogram sample: whether it
 				// is converted to the series' type before the duplicate check depends on what the same
@@ -292,8 +298,19 @@ func (m *Model) Append(a *Appender, si int, t int64, v Val, reject bool) Outcome
 	w := a.W
 	w.Reject = reject
 	o := Decide(m.Series[si], t, v, w)
-	m.stat("append:" + o.String())
 	ser := m.Series[si]
+	if v.Kind == KStale && ser.HasLast && t == ser.LastT && (o == NoOpDup || o == ErrDup) {
+		// A float staleness marker is converted to the histogram type the same appender used
+		// last for this series before the duplicate rule is applied (an optimisation the
+		// implementation documents as imperfect); re-sent at the newest timestamp it is then
+		// compared as a histogram. The property does not pin the outcome down.
+		for _, p := range a.Pending {
+			if p.S == si && (p.V.Kind == KHist || p.V.Kind == KFHist) {
+				o = Unknown
+			}
+		}
+	}
+	m.stat("append:" + o.String())
 	if (ser.HasLast && t == ser.LastT) || t == w.MinValid || (w.OOO > 0 && t == w.HeadMaxT-w.OOO) {
 		m.stat("boundary")
 	}
@@ -323,7 +340,7 @@ func (m *Model) Commit(a *Appender) {
 	m.StaleBeforeHist = map[int]bool{}
 	for i, p := range a.Pending {
 		s := m.Series[p.S]
-		if p.V.Kind == KStale && s.HasLast && s.LastKind != KFloat {
+		if p.V.Kind == KStale && s.HasLast && (s.LastKind != KFloat || (s.LastStale && s.LastStaleAmbig)) {
 			for _, q := range a.Pending[i+1:] {
 				if q.S == p.S {
 					m.StaleBeforeHist[p.S] = true
@@ -344,8 +361,18 @@ func (m *Model) Commit(a *Appender) {
 			s.HasLast, s.LastT, s.Uncertain = true, p.T, false
 			if p.V.Kind == KStale {
 				s.LastStale = true // type of the series is kept
+				// The marker is stored as a float or as a histogram marker depending on the type
+				// the same appender used last for the series (also for samples it appended but
+				// that were dropped at commit): with mixed types in the batch the stored
+				// representation is not determined by the committed history.
+				s.LastStaleAmbig = false
+				for _, q := range a.Pending[:i] {
+					if q.S == p.S && q.V.Kind != KStale && q.V.Kind != s.LastKind {
+						s.LastStaleAmbig = true
+					}
+				}
 			} else {
-				s.LastStale, s.LastKind, s.LastV = false, p.V.Kind, p.V
+				s.LastStale, s.LastStaleAmbig, s.LastKind, s.LastV = false, false, p.V.Kind, p.V
 			}
 			if p.T > maxT {
 				maxT = p.T
@@ -428,8 +455,31 @@ func (m *Model) Truncated(mint int64) {
 // blocksMaxT is the largest MaxTime of the persisted in-order blocks (math.MinInt64 if
 // none): on open the head's lower bound restarts from there, in-memory truncations that
 // produced no block are forgotten.
-func (m *Model) Restarted(headInit bool, blocksMaxT int64) {
+//
+// headMaxT is the head's max time as the implementation reports it after the restart. It is
+// only used when no in-order sample is left in the head: replayed out-of-order samples (WBL,
+// m-mapped out-of-order chunks) then decide the head's time range, which the model of in-order
+// admission cannot derive.
+func (m *Model) Restarted(headInit bool, headMaxT, blocksMaxT int64) {
 	m.Head.MinValid = blocksMaxT
+	// Out-of-order samples are logged in the WAL as well as in the WBL. When the restart lowers
+	// the bound (in-memory truncations that produced no block are forgotten), WAL replay appends
+	// such a sample to the series' in-order chunk if the series has nothing newer there; whether
+	// it does depends on record order. From then on the series may or may not hold an in-order
+	// sample at that timestamp: appends at or below it are not judged.
+	for _, s := range m.Series {
+		if s.HasLast && s.LastT < m.Head.MinValid {
+			s.HasLast = false
+		}
+		for t, p := range s.Pts {
+			if (p.WasOOO || p.OOOHead) && t >= m.Head.MinValid && (!s.HasLast || t > s.LastT) && len(p.Vals) > 0 {
+				s.HasLast, s.LastT, s.Uncertain = true, t, true
+				if s.LastStale = p.Vals[0].Kind == KStale; !s.LastStale {
+					s.LastKind, s.LastV = p.Vals[0].Kind, p.Vals[0]
+				}
+			}
+		}
+	}
 	maxT := int64(math.MinInt64)
 	any := false
 	for _, s := range m.Series {
@@ -449,9 +499,9 @@ func (m *Model) Restarted(headInit bool, blocksMaxT int64) {
 	switch {
 	case any:
 		m.Head.MaxT = maxT
-	case headInit && m.Head.MinValid != math.MinInt64:
+	case headInit:
 		m.Head.Init = true
-		m.Head.MaxT = m.Head.MinValid
+		m.Head.MaxT = headMaxT
 	default:
 		m.Head.MaxT = math.MinInt64
 	}
